@@ -35,7 +35,7 @@ def amoc (cs : Nat → Nat → Nat → α) (m : Nat) (iv : Nat × Nat) : Option 
 /-- `run_seeded_binseg`: (table rows, sorted changepoints); `none` = "argmax of an empty sequence" -/
 def runSbs (cs : Nat → Nat → Nat → α) (m : Nat) (thr : α) (ivs : List (Nat × Nat)) :
     Option (List (Nat × α) × List Nat) :=
-  match ivs.mapM (amoc cs m) with
+  match mapOpt (amoc cs m) ivs with
   | none => none
   | some rows =>
     let trip := (ivs.zip rows).map (fun (iv, r) => (iv.1, iv.2, r.1))
